@@ -281,3 +281,7 @@ impl<T> Param for T where
 /// A bound that relates two type parameters and is satisfied by every pair of types.
 pub trait Rel<X: ?Sized> {}
 impl<A: ?Sized, X: ?Sized> Rel<X> for A {}
+
+/// An aliased result type: sylvia cannot see the response type through it, so queries returning it
+/// must name their response type with `resp=`.
+pub type QResult<T, E> = Result<T, E>;
